@@ -319,6 +319,180 @@ Proof.
 Qed.
 Local Close Scope N_scope.
 
+(* ---- (1) the path strings users pass: names written with the `sep` argument.  replace(sep, tree.sep)
+   turns them into the same path written with the tree separator, and they satisfy `paths_ok` when no
+   character of either separator occurs in a name. ---- *)
+
+Theorem C14_replace_rendered : forall sep tsep lead L k,
+  sep <> [] -> L <> [] -> Forall (sfree sep) L ->
+  replace (rendered sep lead L k) sep tsep = rendered tsep lead L k.
+Proof. exact replace_rendered. Qed.
+Print Assumptions C14_replace_rendered.
+
+Theorem C14_paths_ok_of_rendered : forall tsep sep paths,
+  tsep <> [] -> sep <> [] -> Forall (rendered_ok tsep sep) paths -> paths_ok tsep sep paths.
+Proof. exact paths_ok_of_rendered. Qed.
+Print Assumptions C14_paths_ok_of_rendered.
+
+Local Open Scope N_scope.
+(* prune_tree(tree, "a.b", sep=".") on a "/" tree, and ".a.b." on a "->" tree *)
+Example C14_rendered_nonvacuous :
+  rendered_ok [47] [46] [97; 46; 98] /\ replace [97; 46; 98] [46] [47] = [97; 47; 98]
+  /\ rendered_ok [45; 62] [46] [46; 97; 46; 98; 46]
+  /\ replace [46; 97; 46; 98; 46] [46] [45; 62] = [45; 62; 97; 45; 62; 98; 45; 62].
+Proof.
+  assert (G : forall sp : str, ~ In 97 sp -> ~ In 98 sp -> Forall (sgood sp) [[97]; [98]]).
+  { intros sp Ha Hb. repeat constructor; try discriminate; intros ch Hch [E|[]]; subst; contradiction. }
+  assert (F : Forall (sfree [46]) [[97]; [98]]).
+  { repeat constructor; intros ch [<-|[]] [E|[]]; discriminate. }
+  split; [|split; [vm_compute; reflexivity|split; [|vm_compute; reflexivity]]].
+  - exists false, [[97]; [98]], 0%nat. split; [discriminate|]. split; [|split; [exact F|reflexivity]].
+    apply G; intros [E|[]]; discriminate.
+  - exists true, [[97]; [98]], 1%nat. split; [discriminate|]. split; [|split; [exact F|reflexivity]].
+    apply G; intros [E|[E|[]]]; discriminate.
+Qed.
+Local Close Scope N_scope.
+
+(* ---- (2) BinaryNode depth cut.  `cutb k` keeps k+1 levels: a real node of the last level gets two empty
+   slots, every other slot stays where it is, empty slots stay empty. ---- *)
+
+Theorem C14_binary_depth_cut : forall k t,
+  holes_leaf t = true -> depth_cut_x true (S k) t = cutb k t.
+Proof. exact binary_depth_cut. Qed.
+Print Assumptions C14_binary_depth_cut.
+
+Theorem C14_binary_depth_cut_slots : forall k g n a ks,
+  is_nil n = false ->
+  cutb 0 (T g n a ks) = T g n a [HOLE; HOLE] /\
+  cutb (S k) (T g n a ks) = T g n a (map (cutb k) ks) /\
+  (forall i, nth_error (tkids (cutb (S k) (T g n a ks))) i = option_map (cutb k) (nth_error ks i)) /\
+  (forall h, is_hole h = true -> cutb k h = h).
+Proof. exact cutb_slots. Qed.
+Print Assumptions C14_binary_depth_cut_slots.
+
+Theorem C14_binary_depth_cut_real : forall k t,
+  holes_leaf t = true ->
+  real_obs (depth_cut_x true (S k) t) = filter (fun l => Nat.leb (lbl_depth l) (S k)) (real_obs t).
+Proof. exact binary_depth_cut_real. Qed.
+Print Assumptions C14_binary_depth_cut_real.
+
+Theorem C14_binary_prune_depth : forall tsep t exact sep k,
+  holes_leaf t = true -> tsep <> [] -> sep <> [] ->
+  prune_tree_at true tsep t [] (PList []) exact sep (S k) = Ret (cutb k (copy_tree t)).
+Proof. exact binary_prune_depth. Qed.
+Print Assumptions C14_binary_prune_depth.
+
+Local Open Scope N_scope.
+(* 1(2(-,4(6,-)), 3(5,-)) cut at depth 2: 2 and 3 keep their place and get two empty slots *)
+Example C14_binary_depth_nonvacuous :
+  let t := T None [49] [] [T None [50] [] [HOLE; T None [52] [] [T None [54] [] [HOLE; HOLE]; HOLE]];
+                           T None [51] [] [T None [53] [] [HOLE; HOLE]; HOLE]] in
+  holes_leaf t = true
+  /\ cutb 1 t = T None [49] [] [T None [50] [] [HOLE; HOLE]; T None [51] [] [HOLE; HOLE]].
+Proof. vm_compute. split; reflexivity. Qed.
+Local Close Scope N_scope.
+
+(* ---- (3) BinaryNode addressing: the search of the model (pre-order without the empty slots) finds
+   exactly the real nodes the path addresses; with it path pruning (+ depth limit) and the missing-path
+   clause on the spec's addressing, for any separator. ---- *)
+
+Theorem C14_binary_addressing : forall tsep t st s0 s,
+  subtree_at t st = Some s0 -> strip_ok tsep s ->
+  find_paths_pos_at true tsep (copy_tree t) st s = addressed_at true tsep t st s.
+Proof. exact find_paths_at_addressed_bin. Qed.
+Print Assumptions C14_binary_addressing.
+
+Theorem C14_binary_prune_kept_spec : forall tsep sep t paths exact d,
+  holes_leaf t = true -> tsep <> [] -> sep <> [] -> paths <> [] -> paths_ok tsep sep paths ->
+  singletons (hits_bin tsep sep t [] paths) = true ->
+  nested (concat (hits_bin tsep sep t [] paths)) = false ->
+  exists r, prune_tree_at true tsep t [] (PList paths) exact sep d = Ret r /\
+            real_obs r =
+            map lbl_of (filter (fun ps => keep (concat (hits_bin tsep sep t [] paths)) exact (fst ps)
+                                          && negb (is_hole (snd ps))
+                                          && within_depth d (S (length (fst ps)))) (pre_pos t)).
+Proof. exact binary_prune_spec. Qed.
+Print Assumptions C14_binary_prune_kept_spec.
+
+Theorem C14_binary_missing_path_error : forall tsep sep t paths exact d s,
+  tsep <> [] -> sep <> [] -> paths_ok tsep sep paths -> In s paths ->
+  addressed_at true tsep t [] (replace s sep tsep) = [] ->
+  exists e, prune_tree_at true tsep t [] (PList paths) exact sep d = Raise e.
+Proof. exact binary_missing_path_error. Qed.
+Print Assumptions C14_binary_missing_path_error.
+
+Local Open Scope N_scope.
+Example C14_binary_addressing_nonvacuous :
+  let t := T None [49] [] [T None [50] [] [HOLE; T None [52] [] [HOLE; HOLE]];
+                           T None [51] [] [T None [53] [] [HOLE; HOLE]; HOLE]] in
+  holes_leaf t = true
+  /\ hits_bin [47] [47] t []%list [[50; 47; 52]; [53]] = [[[0; 1]%nat]; [[1; 0]%nat]]
+  /\ addressed_at true [47] t []%list [57] = [].
+Proof. vm_compute. repeat split. Qed.
+Local Close Scope N_scope.
+
+(* ---- (4) any set of targets, nested or not.  What the code does: routes to all targets are kept;
+   descendants (unless exact) only of the *lowest* targets — a target that lies above another target is
+   in ancestors_to_prune and loses its other children like any ancestor. ---- *)
+
+Theorem C14_detach_rule_general : forall N exact p,
+  N <> [] -> survive (fun c => negb (detached N exact c)) p = keep_general N exact p.
+Proof. exact survive_eq_keep_general. Qed.
+Print Assumptions C14_detach_rule_general.
+
+Theorem C14_prune_kept_nested : forall tsep sep t paths exact targets,
+  tsep <> [] -> sep <> [] -> paths <> [] ->
+  locate tsep sep (copy_tree t) paths = Ret targets ->
+  exists r, prune_tree tsep t (PList paths) exact sep 0 = Ret r /\
+            obs_tree r = map lbl_of (filter (fun ps => keep_general targets exact (fst ps)) (pre_pos t)).
+Proof. exact prune_kept_general_model. Qed.
+Print Assumptions C14_prune_kept_nested.
+
+Theorem C14_keep_general_non_nested : forall N exact p,
+  nested N = false -> keep_general N exact p = keep N exact p.
+Proof. exact keep_general_non_nested. Qed.
+Print Assumptions C14_keep_general_non_nested.
+
+Local Open Scope N_scope.
+(* r(a(b, c)), paths r/a and r/a/b, exact off: the code returns r, a, b.  The union "routes + everything
+   below every target" would also contain c (it is below the target a): that formula is false for nested
+   targets, which is why they are outside the claim. *)
+Example C14_nested_union_refuted :
+  let t := T None [114] [] [T None [97] [] [T None [98] [] []; T None [99] [] []]] in
+  let paths := [[114; 47; 97]; [114; 47; 97; 47; 98]] in
+  locate [47] [47] (copy_tree t) paths = Ret [[0]; [0; 0]]%nat
+  /\ nested [[0]; [0; 0]]%nat = true
+  /\ obs_of (run_call [47] t (CPrune (PList paths) false [47] 0%nat))
+     = OTree [(1%nat, [114], []); (2%nat, [97], []); (3%nat, [98], [])]
+  /\ map lbl_of (filter (fun ps => keep [[0]; [0; 0]]%nat false (fst ps)) (pre_pos t))
+     = [(1%nat, [114], []); (2%nat, [97], []); (3%nat, [98], []); (3%nat, [99], [])].
+Proof. vm_compute. repeat split. Qed.
+Local Close Scope N_scope.
+
+(* ---- (5) inner start node: what is above the returned node.  The whole copy after the surgery is
+   `keep` of the whole tree (the start node's ancestors lose their other children), every node on the
+   way to the start node is kept (the returned node is still attached, its depth stays absolute), and
+   below the start node the whole copy shows exactly the returned subtree. ---- *)
+
+Theorem C14_inner_result_in_whole_copy : forall N exact t st s,
+  subtree_at t st = Some s -> N <> [] -> nested N = false -> (forall q, In q N -> prefix st q) ->
+  obs_tree (prune_paths N exact (copy_tree t)) = sel (keep N exact) t /\
+  keep N exact st = true /\
+  sel (fun p => prefixb st p && keep N exact p) t =
+  map (lbl_add (length st)) (obs_tree (prune_paths_at false N exact st (copy_tree s))).
+Proof. exact inner_result_in_whole_copy. Qed.
+Print Assumptions C14_inner_result_in_whole_copy.
+
+Local Open Scope N_scope.
+(* r(a(c, d), b), called on a with target r/a/c: the whole copy is r(a(c)) — b is gone too *)
+Example C14_inner_whole_nonvacuous :
+  let t := T None [114] [] [T None [97] [] [T None [99] [] []; T None [100] [] []]; T None [98] [] []] in
+  subtree_at t [0]%nat <> None /\ nested [[0; 0]%nat] = false
+  /\ obs_tree (prune_paths [[0; 0]%nat] false (copy_tree t))
+     = [(1%nat, [114], []); (2%nat, [97], []); (3%nat, [99], [])].
+Proof. vm_compute. repeat split. discriminate. Qed.
+Local Close Scope N_scope.
+
 (* K3 (known finding): with the two-character separator "->" the faithful model — like the code —
    looks "r->a-" up as "r->a" (rstrip strips the character set {'-','>'}) and keeps the wrong node. *)
 Example C14_multichar_sep_refuted :
